@@ -752,18 +752,16 @@ result_t NumberDataType::derive(int divisor, size_t bitCount, const NumberDataTy
   if (m_divisor != 1) {
     if (divisor == 1) {
       divisor = m_divisor;
-    } else if (divisor < 0) {
-      if (m_divisor > 1) {
-        return RESULT_ERR_INVALID_ARG;
-      }
-      divisor *= -m_divisor;
-    } else if (m_divisor < 0) {
-      if (divisor > 1) {
-        return RESULT_ERR_INVALID_ARG;
-      }
-      divisor *= -m_divisor;
     } else {
-      divisor *= m_divisor;
+      if (divisor < 0 ? m_divisor > 1 : (m_divisor < 0 && divisor > 1)) {
+        return RESULT_ERR_INVALID_ARG;
+      }
+      // combine both in 64 bit to detect a result that is too big (instead of an overflow)
+      int64_t combined = static_cast<int64_t>(divisor) * ((divisor < 0 || m_divisor < 0) ? -m_divisor : m_divisor);
+      if (-MAX_DIVISOR > combined || combined > MAX_DIVISOR) {
+        return RESULT_ERR_OUT_OF_RANGE;
+      }
+      divisor = static_cast<int>(combined);
     }
   }
   if (divisor == m_divisor && bitCount == m_bitCount) {
